@@ -15,7 +15,8 @@ QUIRK_WHAT = {
     "VecMapCopyDiffers": "a map that stores through a vector-valued pointer is not copied faithfully: such a store deletes the "
                          "items of the locations it may write (or keeps its own item at the old position), so use()/eval() - "
                          "hence the assume() copies merge() joins - replay the remaining items to a different memory and the "
-                         "merge covers the copy, not the map (m[v]=vec([p,p+2]); m[mem(p+1,8)]=y; m[mem(p,32)]=x; "
+                         "merge covers the copy, not the map; likewise c >> mm replays the items of a merged map that stores through a "
+                         "vector-valued pointer to a memory that lacks bytes mm holds (m[v]=vec([p,p+2]); m[mem(p+1,8)]=y; m[mem(p,32)]=x; "
                          "m[mem(v,8)]=z: byte p+1 is x[8:16] in m and y in m.assume([]))",
     "VecKeyRewriteOrder": "re-writing a vector-valued pointer key keeps its old position in the map's item list while its "
                           "bytes are written last in memory: every copy of the map (use/eval, hence the assume() copies "
